@@ -1,6 +1,7 @@
 package props
 
 import (
+	"go/types"
 	"fmt"
 	"go/token"
 	"strings"
@@ -29,6 +30,14 @@ func C06(c *core.Ctx) {
 	// the prefix keeps its routes in the RIB and forwards to nobody
 	c.Import(C08, "R6.10", "a FIB prune walk can detach an entry that still holds next hops: a prefix that has routes loses its FIB entry when a route below it is withdrawn", 2, func(k string) bool {
 		return strings.HasPrefix(k, "R8.4:") && (strings.Contains(k, "fibStrategyTreeEntry") || strings.Contains(k, "FibStrategy"))
+	})
+
+	// ---- R6.11 (shared with C05 R5.7) "against both FIB implementations": the hash-table FIB
+	// finds an entry longer than its m components only through the virtual node's maximum
+	// depth; if a later insertion can lower it, a registered, route-bearing prefix is no
+	// longer found by the lookup although the listing still shows it
+	c.Import(C05, "R6.11", "the hash-table FIB can under-estimate the depth of the entries below a virtual node: a prefix that has routes is not found by FindNextHopsEnc any more", 1, func(k string) bool {
+		return strings.HasPrefix(k, "R5.7:md-never-underestimates")
 	})
 
 	up := c.Fn("R6.1", "fw/table", "RibEntry", "updateNexthopsEnc")
@@ -313,6 +322,56 @@ func C06(c *core.Ctx) {
 		})
 	}
 	c.Floor("R6.4", "route mutation stores", nMut, 3)
+	// ---- R6.4b the refresh comes before the pruning. An entry that lost its last route is
+	// refreshed (its FIB entry is cleared or refilled with inherited next hops) and then
+	// detached; once detached it is never reached by a refresh again, so pruning first leaves
+	// the FIB entry of the removed routes behind for good.
+	{
+		nPr := 0
+		for _, fn := range p.FuncsIn(core.ModPath + "/fw/table") {
+			if strings.HasSuffix(p.File(fn.Pos()), "_test.go") || fn.Signature.Recv() == nil {
+				continue
+			}
+			if n, ok := core.Deref(fn.Signature.Recv().Type()).(*types.Named); !ok || n.Obj().Name() != "RibTable" {
+				continue
+			}
+			core.Instrs(fn, func(in ssa.Instruction) {
+				ci, ok := in.(ssa.CallInstruction)
+				if !ok {
+					return
+				}
+				cal := ci.Common().StaticCallee()
+				if cal == nil {
+					return
+				}
+				isPrune := false
+				if id := core.FuncID(cal); id.Recv == "RibEntry" && id.Name == "pruneIfEmpty" {
+					isPrune = true
+				} else if prunesSubtree(p, cal) {
+					isPrune = true
+				}
+				if !isPrune {
+					return
+				}
+				nPr++
+				c.Funcs[core.FuncName(fn)] = true
+				recv, _ := core.CallArgs(ci.Common())
+				before := core.Precedes(fn, in, func(x ssa.Instruction) bool {
+					if _, isDefer := x.(*ssa.Defer); isDefer {
+						return false
+					}
+					cc, ok := core.IsCall(x, core.CalleeID{Pkg: "fw/table", Recv: "RibEntry", Name: "updateNexthopsEnc"})
+					if !ok {
+						return false
+					}
+					rv, _ := core.CallArgs(cc)
+					return recv != nil && (core.Strip(rv) == core.Strip(recv) || core.Same(rv, recv))
+				})
+				c.Decide(before, "R6.4", fmt.Sprintf("refresh-before-prune:%s#%d", core.FuncName(fn), nPr), c.Pos(in), "the entry is refreshed before it is pruned", core.FuncName(fn)+" prunes RIB entries before their next hops were recomputed: an entry that lost its last route is detached first and never refreshed again — its FIB entry keeps the next hops of the removed routes (a dead face among them) for good")
+			})
+		}
+		c.Floor("R6.4", "prune calls in RIB mutators", nPr, 2)
+	}
 	// face removal → CleanUpFace
 	cu := ribCleanupWorker(p)
 	if cu == nil {
